@@ -193,28 +193,10 @@ def r2_self_threading_agrees(ctx):
         good = v is not None and len(v.elts) == 1 and isinstance(v.elts[0], ast.IfExp) and str_value(v.elts[0].body) == "self" and src(v.elts[0].test).endswith(".is_method") and str_value(v.elts[0].orelse) == ""
         ok = ok and good
     ctx.ob(f"{gen.key}:self-slot", gen.loc(), "for methods, the generated entry point both declares `self` first and forwards it first", ok, "the entry point declares `self` but does not forward it (or the reverse): the selected method is called without the instance, or with the first argument in its place")
-    # rewriter: the replacement call starts with self under is_method
-    rw = A.rewriter(repo)
-    vc = rw.methods["visit_Call"]
-    ctx.touch(vc)
-    rv = recv_name(vc)
-    selfvar = None
-    for s in ast.walk(vc.node):
-        if isinstance(s, ast.If) and src(s.test).endswith(".is_method"):
-            a = [x for x in s.body if isinstance(x, ast.Assign)]
-            b = [x for x in s.orelse if isinstance(x, ast.Assign)]
-            if a and b and dotted(a[0].targets[0]) == dotted(b[0].targets[0]):
-                av, bv = a[0].value, b[0].value
-                if isinstance(av, ast.List) and len(av.elts) == 1 and "'self'" in src(av.elts[0]) and isinstance(bv, ast.List) and not bv.elts:
-                    selfvar = dotted(a[0].targets[0])
-    used = False
-    if selfvar:
-        for c in ast.walk(vc.node):
-            if isinstance(c, ast.Call) and call_name(c) == "ast.Call":
-                for k in c.keywords:
-                    if k.arg == "args" and isinstance(k.value, ast.BinOp) and dotted(k.value.left) == selfvar:
-                        used = True
-    ctx.ob(f"{vc.key}:self-first", vc.loc(), "for methods, rewritten recurse/call_next calls pass `self` first", bool(selfvar) and used, "rewritten recurse/call_next sites of a method do not pass the instance: the next method receives the first argument as self")
+    # rewriter: the replacement call starts with self exactly for methods (abstract execution)
+    from .rewriter import law_self_first
+
+    law_self_first(ctx)
     # dependent generator: def header and every hand-over carry the self prefix
     dg = A.dependent_generator(repo)
     ctx.touch(dg)
